@@ -44,9 +44,31 @@ struct Streams {
 
 const PROBE_TEXT: &str = "\x1b[1mX\x1b[0m";
 
+extern "C" {
+    fn dup(fd: i32) -> i32;
+    fn dup2(old: i32, new: i32) -> i32;
+    fn close(fd: i32) -> i32;
+}
+
+/// exchange what file descriptors 1 and 2 are attached to (a pager starting, output being redirected, daemonising)
+fn swap_stdout_stderr() {
+    unsafe {
+        let saved = dup(1);
+        assert!(saved >= 0 && dup2(2, 1) == 1 && dup2(saved, 2) == 2, "dup2");
+        close(saved);
+    }
+}
+
+static SWAPPED: std::sync::atomic::AtomicBool = std::sync::atomic::AtomicBool::new(false);
+static REATTACH: std::sync::atomic::AtomicBool = std::sync::atomic::AtomicBool::new(false);
+
 fn observe(log: &mut impl Write, st: &Streams, g: ColorChoice, env: &[Option<OsString>; 6]) {
     let mut o = J::obj();
     o.set("ev", J::s("env"));
+    o.set("swapped", J::Bool(SWAPPED.load(std::sync::atomic::Ordering::Relaxed)));
+    if REATTACH.load(std::sync::atomic::Ordering::Relaxed) {
+        o.set("reattach", J::Bool(true));
+    }
     o.set("global", J::s(choice_name(g)));
     for (i, name) in VARS.iter().enumerate() {
         o.set(name, jv(&env[i]));
@@ -224,6 +246,68 @@ fn os(s: &str) -> Option<OsString> {
     Some(OsString::from(s))
 }
 
+/// `to_adapted_string(text, stream)` against the stream it stands in for: whatever the detection decides for the
+/// stream, the helper renders the text like `AutoStream::new(Vec, that choice)` does (texts with escapes, with DEL / C0
+/// controls only, plain, long).  One JSON line per disagreement and a summary line.
+fn adapted_mode(log: &mut impl Write, seed: u64, n: u64) {
+    use refmodel::gen;
+    let sink: Vec<u8> = vec![];
+    let mut evaluations = 0u64;
+    let mut bad = 0u64;
+    let mut by_choice = [0u64; 4];
+    for i in 0..n {
+        let mut rng = Rng::new(seed, 0xC08_A000_0000 + i);
+        let bytes = match i % 5 {
+            0 => gen::gen_sgr_text(&mut rng, gen::SgrOpts::default(), 12, &["\x7f", "\u{e9}", "\t"]),
+            1 => {
+                let mut d = gen::gen_sgr_text(&mut rng, gen::SgrOpts::default(), 5, &["\x7f", "\x7f\x7f", "\x08", "\x07"]);
+                d.retain(|b| *b != 0x1b);
+                d
+            }
+            2 => b"rub\x7fout\n".to_vec(),
+            3 => gen::gen_stream(&mut rng, 300, true),
+            _ => gen::threshold_document(gen::long_len(&mut rng, 4096), (i % 4) as u8, i % 2 == 0),
+        };
+        let Ok(text) = String::from_utf8(bytes) else { continue };
+        for g in [ColorChoice::Never, ColorChoice::Always, ColorChoice::AlwaysAnsi, ColorChoice::Auto] {
+            g.write_global();
+            let decided = AutoStream::choice(&sink);
+            let got = anstream::_macros::to_adapted_string(&text, &sink);
+            let mut reference = AutoStream::new(Vec::<u8>::new(), decided);
+            let _ = write!(reference, "{text}");
+            let want = String::from_utf8_lossy(&reference.into_inner()).into_owned();
+            evaluations += 1;
+            by_choice[match decided {
+                ColorChoice::Auto => 0,
+                ColorChoice::AlwaysAnsi => 1,
+                ColorChoice::Always => 2,
+                ColorChoice::Never => 3,
+            }] += 1;
+            if got != want {
+                bad += 1;
+                if bad <= 5 {
+                    let mut o = J::obj();
+                    o.set("ev", J::s("adapted-mismatch"));
+                    o.set("global", J::s(choice_name(g)));
+                    o.set("decided", J::s(choice_name(decided)));
+                    o.set("text_hex", J::s(refmodel::json::hex(text.as_bytes())));
+                    o.set("got", J::s(refmodel::json::show(&got.as_bytes()[..got.len().min(160)])));
+                    o.set("want", J::s(refmodel::json::show(&want.as_bytes()[..want.len().min(160)])));
+                    let _ = writeln!(log, "{}", o.to_string());
+                }
+            }
+        }
+    }
+    ColorChoice::Auto.write_global();
+    let mut o = J::obj();
+    o.set("ev", J::s("adapted-summary"));
+    o.set("evaluations", J::UInt(evaluations));
+    o.set("mismatches", J::UInt(bad));
+    o.set("by_decided_choice_auto_alwaysansi_always_never", J::Arr(by_choice.iter().map(|c| J::UInt(*c)).collect()));
+    let _ = writeln!(log, "{}", o.to_string());
+    let _ = log.flush();
+}
+
 fn main() {
     let args: Vec<String> = std::env::args().collect();
     let mut log = std::io::BufWriter::new(std::fs::File::create(&args[1]).expect("log file"));
@@ -231,6 +315,13 @@ fn main() {
     let tty = if args[3] == "-" { None } else { std::fs::OpenOptions::new().write(true).open(&args[3]).ok() };
     let mode = args.get(4).map(|s| s.as_str()).unwrap_or("full");
     let seed: u64 = args.get(5).and_then(|s| s.parse().ok()).unwrap_or(1);
+    if mode == "adapted" {
+        for v in VARS {
+            std::env::remove_var(v);
+        }
+        adapted_mode(&mut log, seed, args.get(6).and_then(|s| s.parse().ok()).unwrap_or(2000));
+        return;
+    }
     let st = Streams { regular, tty };
     for v in VARS {
         std::env::remove_var(v);
@@ -270,6 +361,25 @@ fn main() {
         }
         std::env::remove_var("COLORTERM");
         clap_events(&mut log);
+        // the standard streams are re-attached while the process runs: the decision follows what the descriptor is
+        // attached to now (swap, swap back, swap again; a few environments in which the terminal test matters)
+        ColorChoice::Auto.write_global();
+        REATTACH.store(true, std::sync::atomic::Ordering::Relaxed);
+        for round in 0..3 {
+            swap_stdout_stderr();
+            SWAPPED.store(round % 2 == 0, std::sync::atomic::Ordering::Relaxed);
+            for (t, cc, c) in [(os("xterm-256color"), None, None), (None, os("1"), None), (os("dumb"), None, os("true")), (os("dumb"), None, None)] {
+                set("TERM", &t);
+                set("CLICOLOR", &cc);
+                set("CI", &c);
+                observe(&mut log, &st, ColorChoice::Auto, &[None, None, cc.clone(), t.clone(), c.clone(), None]);
+            }
+        }
+        swap_stdout_stderr();
+        SWAPPED.store(false, std::sync::atomic::Ordering::Relaxed);
+        for v in VARS {
+            std::env::remove_var(v);
+        }
     } else {
         // seeded unusual values: long, non-ASCII, non-UTF-8, whitespace, look-alikes
         use std::os::unix::ffi::OsStringExt;
